@@ -23,10 +23,11 @@ def check(run):
     from checks import _tree_theorems
     run.prove(_tree_theorems.C08)
     rng = run.rng
+    treegen.init_special(run.harness())      # empty-subtree roots as leaf values
     quick = run.tier == "quick"
     nseq = 100 if quick else 1000
     kinds = ["batch", "batch", "batch", "set", "app", "del", "range"]
-    for backend in treegen.BACKENDS:
+    for backend in treegen.BACKENDS + treegen.GENERIC:
         seqs = []
         for k in range(nseq):
             depth = rng.choice([2, 3, 3, 4, 4, 5] if quick else [2, 3, 4, 5, 6])
